@@ -152,16 +152,25 @@ Definition flat_eqb (a b : str * pv * str * str) : bool :=
 
 (* immediate consumption: step by step the same deliveries (as multisets, ack ids hidden) and the same
    callback invocations as the real single server; at the end the same membership *)
-Definition prop_imm (c : case) : bool :=
+Definition imm_deliveries_ok (c : case) : bool :=
   (fix go (a b : list (list eff)) : bool :=
      match a, b with
      | [], [] => true
-     | x :: a', y :: b' =>
-         bag_eqb dl_eqb (deliveries x) (deliveries y) && list_eqb cb_eqb (cbs_plain x) (cbs_plain y) && go a' b'
+     | x :: a', y :: b' => bag_eqb dl_eqb (deliveries x) (deliveries y) && go a' b'
+     | _, _ => false
+     end) (k_obs c) (k_single c).
+Definition imm_callbacks_ok (c : case) : bool :=
+  (fix go (a b : list (list eff)) : bool :=
+     match a, b with
+     | [], [] => true
+     | x :: a', y :: b' => list_eqb cb_eqb (cbs_plain x) (cbs_plain y) && go a' b'
      | _, _ => false
      end) (k_obs c) (k_single c) &&
-  bag_eqb flat_eqb (flat_map flat_of_dump (k_finals c)) (flat_of_dump (k_single_final c)) &&
   callbacks_ok (k_ops c) (k_obs c).
+Definition imm_membership_ok (c : case) : bool :=
+  bag_eqb flat_eqb (flat_map flat_of_dump (k_finals c)) (flat_of_dump (k_single_final c)).
+Definition prop_imm (c : case) : bool :=
+  imm_deliveries_ok c && imm_callbacks_ok c && imm_membership_ok c.
 
 (* -- delayed consumption -- *)
 Definition is_membership_msg (m : msg) : bool :=
@@ -272,11 +281,20 @@ Fixpoint prop_delayed_from (wos : list bool) (chan : list msg) (curs : list nat)
       | _ => prop_delayed_from wos chan' curs r
       end
   end.
+Definition delayed_steps_ok (c : case) : bool :=
+  prop_delayed_from (k_wos c) [] (map (fun _ => 0%nat) (k_wos c)) (k_steps c).
 Definition prop_delayed (c : case) : bool :=
-  prop_delayed_from (k_wos c) [] (map (fun _ => 0%nat) (k_wos c)) (k_steps c) &&
-  callbacks_ok (k_ops c) (k_obs c).
+  delayed_steps_ok c && callbacks_ok (k_ops c) (k_obs c).
 
+(* 1 = model and implementation disagree; 2 = the observations violate the property, with the failing part:
+   4 = deliveries (immediate: not the single server's; delayed: echo / eligibility / at-most-once / exactness),
+   8 = callback invocations, 16 = final membership *)
 Definition c07_eval (c : case) : nat :=
   ((if corr c then 0 else 1) +
    (if negb (k_strict c) then 0
-    else if (if k_imm c then prop_imm c else prop_delayed c) then 0 else 2))%nat.
+    else if k_imm c then
+      (if prop_imm c then 0 else 2) + (if imm_deliveries_ok c then 0 else 4) +
+      (if imm_callbacks_ok c then 0 else 8) + (if imm_membership_ok c then 0 else 16)
+    else
+      (if prop_delayed c then 0 else 2) + (if delayed_steps_ok c then 0 else 4) +
+      (if callbacks_ok (k_ops c) (k_obs c) then 0 else 8)))%nat.
